@@ -127,6 +127,24 @@ def _explore(out, tier, seed, facts, replay):
                         if ai in empties and not math.isnan(v) and aggname != "count":
                             out.violation("empty-slice-numeric-repeat:%s" % name, "metric %s -agg %s gives %r on a slice without valid cases when the dataset is asked a second time" % (name, aggname, v),
                                           {"dataset": ds, "metric": name, "axis": ax.name(), "slice": ai, "aggregator": aggname})
+        # (2c) the whole arrays (no axis): a case that is missing in ANY requested field is missing in EVERY returned array
+        for fs in (["obs", "fcst"], ["fcst", "obs"], ["obs", "fcst", "pit"], ["pit", "fcst"]):
+            if not all(f in s_["fields"] for f in fs for s_ in ds["inputs"][:1]):
+                continue
+            k = rng.randrange(ninp)
+            try:
+                arrs = d.get_scores([datagen.field_obj(f) for f in fs], k)
+            except datagen.ImplExit:
+                continue
+            except Exception as e:
+                out.violation("whole-array-exception", "get_scores(%r, %d) without an axis raised %r" % (fs, k, e), {"dataset": ds, "fields": fs, "input": k})
+                continue
+            nf += 1
+            nanmasks = [np.isnan(np.asarray(a_, float)) for a_ in arrs]
+            if any(m_.shape != nanmasks[0].shape or not np.array_equal(m_, nanmasks[0]) for m_ in nanmasks[1:]):
+                cnt = [int(m_.sum()) for m_ in nanmasks]
+                out.violation("whole-array-validity", "get_scores(%r, input %d) without an axis returns arrays with %r missing cells: a case missing in one requested field must be missing in all of them"
+                              % (fs, k, cnt), {"dataset": ds, "fields": fs, "input": k})
         if len(samples) < 2:
             samples.append({"n_inputs": ninp, "marked_input": j})
     # (2b) missing ensemble members never count as a number in probabilities derived from the ensemble
@@ -163,6 +181,22 @@ def _explore(out, tier, seed, facts, replay):
             o, f = inp.obs, inp.fcst
             if not (np.isnan(o[0, 0, 0]) and np.isnan(f[0, 0, 1]) and o[0, 0, 1] == 3):
                 out.violation("text-encoding:%s" % tok, "text token %r not read as missing: obs=%r fcst=%r" % (tok, o.tolist(), f.tolist()), {"token": tok})
+        # a missing token in a COORDINATE column (date, unixtime): the row is dropped, the reader does not crash
+        for tcol, good1, good2 in (("date", "20120101", "20120102"), ("unixtime", "1325376000", "1325462400")):
+            for tok in ("-999", "NA", "-999.0"):
+                fn = os.path.join(tmp, "tc.txt")
+                open(fn, "w").write("%s leadtime location obs fcst\n%s 0 7 2 4\n%s 0 7 3 5\n%s 0 7 4 7\n" % (tcol, good1, tok, good2))
+                nf += 1
+                try:
+                    inp = verif.input.Text(fn)
+                    ts_ = [float(t) for t in inp.times if not np.isnan(t)]
+                    if ts_ != [1325376000.0, 1325462400.0]:
+                        out.violation("missing-coordinate:%s" % tcol, "a row whose %s is %r: the file's times are read as %r, expected the two valid rows" % (tcol, tok, ts_), {"column": tcol, "token": tok, "file": open(fn).read()})
+                except datagen.ImplExit:
+                    pass
+                except Exception as e:
+                    out.violation("missing-coordinate-exception:%s" % tcol, "a text file with the missing token %r in its %s column makes the reader raise %s: %s" % (tok, tcol, type(e).__name__, e),
+                                  {"column": tcol, "token": tok, "file": open(fn).read()})
         # Tie A for the token rule: Gen_io.text_cell (generated from Text._clean) on what Python's float() makes of the
         # token, against Text._clean itself; spellings of the number -999, non-numbers, ordinary numbers
         toks = ["-999", "-999.0", "-999.00", "-999.", "-9.99e2", "-999e0", "-0999", " -999", "-999 ", "NA", "na", "nan", "NaN", "missing", "x", "-", "1e3",
